@@ -312,7 +312,7 @@ func c06History(c *vc.Ctx, idx int) {
 		if blk%9 == 5 && len(lh.post.Bitcoin.EthTxQueue.Deposits)+len(lh.post.Locking.EthTxQueue.Unlocks)+len(lh.post.Locking.EthTxQueue.Rewards) > 0 {
 			forcedNow = true
 			forced++
-			variant := r.Intn(5)
+			variant := r.Intn(7)
 			lh.cfg.StepOpts = func(so *world.StepOpts) {
 				so.NoProcess = true
 				so.Mutate = func(txs [][]byte) [][]byte {
@@ -337,6 +337,13 @@ func c06History(c *vc.Ctx, idx int) {
 					case 3: // withhold the last one
 						q.Transactions = append(append([][]byte{}, q.Transactions[:n-1]...), q.Transactions[n:]...)
 						q.ExtraData = append([]byte{byte(n - 1)}, q.ExtraData[1:]...)
+					case 5, 6: // everything due, byte-exact and in front - followed by a system transaction nobody owes, the count covering it
+						surplus := q.Transactions[n-1]
+						if variant == 6 {
+							surplus = q.Transactions[0]
+						}
+						q.Transactions = append(append(append([][]byte{}, q.Transactions[:n]...), surplus), q.Transactions[n:]...)
+						q.ExtraData = append([]byte{byte(n + 1)}, q.ExtraData[1:]...)
 					case 4: // withhold every hand-over of the locking module, keep the bridge ones (count adjusted)
 						var keep [][]byte
 						for i := 0; i < n; i++ {
